@@ -352,6 +352,49 @@ func c07Run(r *Run) {
 	}
 	r.curRule = "C07-VIS"
 	nodesSeen := map[string]bool{}
+	// helpers whose bare lookup is covered by the gate of their own node's evaluation entry
+	entryGated := map[*ast.FuncDecl]bool{}
+	defer func() {
+		// … which holds only for calls that come through that entry: a call of the helper from another
+		// node type (or a package function) hands the member out without the gate unless the caller
+		// tests a gate itself
+		r.curRule = "C07-VIS"
+		var hs []*ast.FuncDecl
+		for h := range entryGated {
+			if h.Name.Name != "GetValue" && h.Name.Name != "SetValue" && h.Name.Name != "GetZVal" && h.Name.Name != "SetProperty" {
+				hs = append(hs, h)
+			}
+		}
+		sort.Slice(hs, func(i, j int) bool { return hs[i].Pos() < hs[j].Pos() })
+		for _, h := range hs {
+			hobj := info.Defs[h.Name]
+			for _, g := range funcDecls(npkg) {
+				if g.Body == nil || recvTypeName(g) == recvTypeName(h) {
+					continue
+				}
+				ast.Inspect(g.Body, func(n ast.Node) bool {
+					c, ok := n.(*ast.CallExpr)
+					if !ok || calleeOf(info, c) != hobj {
+						return true
+					}
+					key := funcKey(npkg, g) + "#calls-ungated-lookup:" + recvTypeName(h) + "." + h.Name.Name
+					gated := false
+					ast.Inspect(g.Body, func(m ast.Node) bool {
+						if gc, ok := m.(*ast.CallExpr); ok && gates[calleeOf(info, gc)] {
+							gated = true
+						}
+						return true
+					})
+					if gated {
+						r.ok(key, c.Pos(), "the caller tests a visibility gate itself")
+					} else {
+						r.bad(key, c.Pos(), fmt.Sprintf("%s fetches the member through %s.%s, the lookup half of that node's evaluation, and skips the visibility gate its GetValue applies: private and protected members are readable through this path", funcKey(npkg, g), recvTypeName(h), h.Name.Name))
+					}
+					return true
+				})
+			}
+		}
+	}()
 	type privArm struct {
 		fk             string
 		pos            token.Pos
@@ -794,6 +837,7 @@ func c07Run(r *Run) {
 				}
 			} else if outside && armed && isNamed(res0, dataPath, "Value") && strings.Contains(name, "Static") {
 				if gatedFor(fd) {
+					entryGated[fd] = true
 					add("static-value-lookup:"+name, c.Pos(), true, "the value is fetched bare, and the evaluation entry of this node tests a visibility gate (a function that consults the declaration's GetModifier()) before handing it out")
 					return s
 				}
